@@ -97,6 +97,66 @@ def regenerate(ctx):
     return broken, changed
 
 
+
+# ------------------------------------------------------------------ development aid: runs against scratch trees share lean/GSV/Gen
+def _gen_would_change():
+    """would regenerating from the tree under test (SRC) rewrite any file of lean/GSV/Gen?"""
+    import tempfile, shutil
+    sys.path.insert(0, os.path.join(VERIF, "vlib"))
+    import pyx2lean
+    gen = os.path.join(LEAN, "GSV", "Gen")
+    for rel, ns in KERNELS:
+        try:
+            txt = pyx2lean.translate_file(os.path.join(SRC, rel), ns)
+        except Exception:
+            return True
+        dst = os.path.join(gen, ns + ".lean")
+        if not os.path.exists(dst) or open(dst).read() != txt:
+            return True
+    try:
+        import pyexpr2lean
+    except ImportError:
+        return False
+    tmp = tempfile.mkdtemp(prefix="gsv_gen_")
+    try:
+        try:
+            pyexpr2lean.regenerate_all(SRC, tmp)
+        except Exception:
+            return True
+        for f in os.listdir(tmp):
+            dst = os.path.join(gen, f)
+            if not os.path.exists(dst) or open(dst).read() != open(os.path.join(tmp, f)).read():
+                return True
+    finally:
+        shutil.rmtree(tmp, ignore_errors=True)
+    return False
+
+
+class GenGuard:
+    """Checks that do not change the generated Lean files run concurrently (shared lock); a run whose tree regenerates them
+    differently (a scratch tree given by GSV_REPO with edited kernels / formulas, or /repo itself after such an edit) runs alone
+    (exclusive lock) and, if it was a scratch tree, puts the translation of /repo back before releasing the lock."""
+
+    def __enter__(self):
+        self.fh = open(os.path.join(LEAN, ".gen.lock"), "w")
+        fcntl.flock(self.fh, fcntl.LOCK_SH)
+        self.exclusive = False
+        if _gen_would_change():
+            fcntl.flock(self.fh, fcntl.LOCK_UN)
+            fcntl.flock(self.fh, fcntl.LOCK_EX)
+            self.exclusive = True
+        return self
+
+    def __exit__(self, *a):
+        try:
+            if self.exclusive and os.path.realpath(REPO) != "/repo":
+                env = {k: v for k, v in os.environ.items() if k not in ("GSV_REPO", "GSV_OUT")}
+                subprocess.run([sys.executable, "-c", "import sys; sys.path.insert(0, %r); import core; core.regenerate(core.Ctx('restore', 'quick', 0))"
+                                % os.path.join(VERIF, "vlib")], env=env, cwd=VERIF, capture_output=True)
+        finally:
+            self.fh.close()
+        return False
+
 # ------------------------------------------------------------------ build + audit
 def lake_build(targets, ctx, timeout=5400):
     lock = lake_lock()
@@ -256,6 +316,11 @@ def write_replay(prop, payload):
 
 
 def run_check(prop, tier, seed, replay=None):
+    with GenGuard():
+        return _run_check(prop, tier, seed, replay)
+
+
+def _run_check(prop, tier, seed, replay=None):
     ctx = Ctx(prop, tier, seed)
     sys.path.insert(0, os.path.join(VERIF, "vlib"))
     mod = importlib.import_module(f"props.{prop}")
